@@ -54,7 +54,8 @@ try:
         rc, out = 0, ""
         meta["suite_skipped"] = True
     else:
-        rc, out = run(["nice", "-n", "-15", "go", "test", "-vet=off", "-count=1", "-timeout", "25m", "./..."], ver)
+        # a private loopback: other jobs run the same suite on the same fixed ports (127.0.0.x:7946)
+        rc, out = run(["unshare", "-n", "sh", "-c", "ip link set lo up; exec nice -n -15 go test -vet=off -count=1 -timeout 25m ./..."], ver)
     meta["ran"].append({"cmd": "go test -vet=off -count=1 ./... (with patch)", "rc": rc, "secs": round(time.time() - t0)})
     print("suite with patch: rc=%d (%ds)" % (rc, time.time() - t0))
     if rc != 0:
